@@ -6,7 +6,7 @@
    rfc_frame_ok / rfc_close_code_ok (WsTables.v) are RFC 6455 written independently.  *)
 From Coq Require Import List NArith Bool Lia.
 Import ListNotations.
-Require Import WsModel GenWs WsBasics WsTables.
+Require Import WsModel GenWs WsBasics WsTables WsLimits WsReplies.
 Open Scope N_scope.
 
 (* the real Parse accepts a frame header exactly when RFC 6455 allows it, on the whole header space *)
@@ -38,6 +38,57 @@ Proof. exact (model_valid_frame_gen fi r1 r2 r3 op expect encomp). Qed.
 Theorem c13_model_close_code_is_code c : c < 65536 -> valid_close_code c = gen_valid_close_code c.
 Proof. exact (model_close_code_gen c). Qed.
 
+(* ---------- replies and rejections on the model (handleWsMessage with the default handlers of NewUpgrader) ---------- *)
+
+(* a ping is answered by one pong frame carrying the same payload; nothing else happens *)
+Theorem c13_ping_pong cfg st o p :
+  closed st = false -> cclosed st = false -> len p <= 125 ->
+  exists k o', handle_ws_message cfg st o 9 p =
+    (st, o', [EvPing p; EvWrite (encode_frame (mkf true false 10 (is_client cfg) k p))]).
+Proof. exact (ping_pong cfg st o p). Qed.
+
+(* a close frame with a legal code and a UTF-8 reason: close handler, the same close frame echoed, connection closed *)
+Theorem c13_close_reply cfg st o c0 c1 reason :
+  closed st = false -> cclosed st = false -> len reason <= 123 ->
+  valid_close_code (be_val [c0; c1]) = true -> utf8_valid reason = true -> c0 < 256 -> c1 < 256 ->
+  exists k o', handle_ws_message cfg st o 8 (c0 :: c1 :: reason) =
+    (set_cclosed st, o',
+     [EvClose (be_val [c0; c1]) reason;
+      EvWrite (encode_frame (mkf true false 8 (is_client cfg) k (c0 :: c1 :: reason))); EvConnClose]).
+Proof. exact (close_reply cfg st o c0 c1 reason). Qed.
+
+Theorem c13_close_empty_reply cfg st o :
+  closed st = false -> cclosed st = false ->
+  exists k o', handle_ws_message cfg st o 8 [] =
+    (set_cclosed st, o', [EvClose 1005 []; EvWrite (encode_frame (mkf true false 8 (is_client cfg) k [])); EvConnClose]).
+Proof. exact (close_empty_reply cfg st o). Qed.
+
+(* invalid UTF-8 in a text message, an illegal close code, a non-UTF-8 close reason: no handler is called, exactly one
+   close frame with code 1002 is written and the connection is closed *)
+Theorem c13_bad_text_refused cfg st o p :
+  closed st = false -> cclosed st = false -> utf8_valid p = false ->
+  protocol_error_reply cfg (snd (handle_ws_message cfg st o 1 p)).
+Proof. exact (bad_text_refused cfg st o p). Qed.
+
+Theorem c13_bad_close_code_refused cfg st o c0 c1 reason :
+  closed st = false -> cclosed st = false -> valid_close_code (be_val [c0; c1]) = false ->
+  protocol_error_reply cfg (snd (handle_ws_message cfg st o 8 (c0 :: c1 :: reason))).
+Proof. exact (bad_close_code_refused cfg st o c0 c1 reason). Qed.
+
+Theorem c13_bad_close_reason_refused cfg st o c0 c1 reason :
+  closed st = false -> cclosed st = false -> valid_close_code (be_val [c0; c1]) = true -> utf8_valid reason = false ->
+  protocol_error_reply cfg (snd (handle_ws_message cfg st o 8 (c0 :: c1 :: reason))).
+Proof. exact (bad_close_reason_refused cfg st o c0 c1 reason). Qed.
+
+(* c13_no_delivery: the frame on which Parse fails hands nothing to OnMessage or to the ping/pong/close handlers (it
+   only produces wire events: at most the 1009 close frame), and the Parse call ends with that frame: all deliveries
+   of the call stem from frames strictly before the offending one *)
+Theorem c13_no_delivery cfg fuel st o st' o' evs e :
+  frame_loop fuel cfg st o = (st', o', evs, Some e) -> e <> EFuel ->
+  exists (before after : list event) (st1 : state) (o1 : oracle),
+    evs = before ++ after /\ step cfg st1 o1 = SStop st' o' after (Some e) /\ Forall is_wire_ev after.
+Proof. exact (frame_loop_error_tail cfg fuel st o st' o' evs e). Qed.
+
 (* non-vacuity: one accepted and one refused row *)
 Example c13_example :
   gen_parse true false false false 1 false false = 0 /\ gen_parse true false false false 0 false false = 1 /\
@@ -50,3 +101,10 @@ Print Assumptions c13_close_codes.
 Print Assumptions c13_model_parse_is_code.
 Print Assumptions c13_model_validframe_is_code.
 Print Assumptions c13_model_close_code_is_code.
+Print Assumptions c13_ping_pong.
+Print Assumptions c13_close_reply.
+Print Assumptions c13_close_empty_reply.
+Print Assumptions c13_bad_text_refused.
+Print Assumptions c13_bad_close_code_refused.
+Print Assumptions c13_bad_close_reason_refused.
+Print Assumptions c13_no_delivery.
